@@ -61,7 +61,8 @@ DIFFSTAT = [b" f0.txt | 2 +-", b" 1 file changed, 1 insertion(+), 1 deletion(-)"
 class ColorOnly(Problem):
     max_depth = 200
 
-    def __init__(self, ocfg, max_sections, kinds, bodies, coloured):
+    def __init__(self, ocfg, max_sections, kinds, bodies, coloured, src="git"):
+        self.src = src
         self.ocfg = ocfg
         self.max_sections = max_sections
         self.kinds = kinds
@@ -72,7 +73,7 @@ class ColorOnly(Problem):
     def sec(self, kind, n, body):
         key = (kind, n, body)
         if key not in self.cache:
-            lines, info = producers.section(kind, n, body, "git")
+            lines, info = producers.section(kind, n, body, self.src)
             nh = len(info["hunk_lines"])
             out = []
             for i, l in enumerate(lines):
@@ -97,7 +98,7 @@ class ColorOnly(Problem):
         if n >= self.max_sections:
             return out
         for kind in self.kinds:
-            has_hunk = producers.section(kind, 0, "ctx")[1]["has_hunk"]
+            has_hunk = producers.section(kind, 0, "ctx", self.src)[1]["has_hunk"]
             for body in (self.bodies if has_hunk and kind != "submodule" else ["ctx"]):
                 line, role = self.sec(kind, n, body)[0]
                 out.append((line, (n, (kind, body), 1), "sec-" + kind + ":" + role))
@@ -107,7 +108,7 @@ class ColorOnly(Problem):
         n, cur, i = ps
         if cur is None:
             out = self._choices(n)
-            if n == 0:
+            if n == 0 and self.src == "git":
                 l, r = self.preamble()[0]
                 out.append((l, (0, "pre", 1), "pre:" + r))
             return out
@@ -187,7 +188,11 @@ DIMS = [
     Dim("file-style", [("reserved", {}), ("default", {"file-style": None}),
                        ("omit", {"file-style": "omit", "_omit": ("meta",)})]),
     Dim("hunk-header-style", [("reserved", {}), ("default", {"hunk-header-style": None}),
-                              ("omit", {"hunk-header-style": "omit", "_omit": ("frag",)})]),
+                              ("omit", {"hunk-header-style": "omit", "_omit": ("frag",)}),
+                              # the special words of hunk-header-style: none may change the line under --color-only
+                              ("omit-code-fragment", {"hunk-header-style": "line-number omit-code-fragment 110"}),
+                              ("file-ln", {"hunk-header-style": "file line-number 110"}),
+                              ("syntax", {"hunk-header-style": "syntax"})]),
     Dim("deco-in-style", [("none", {}), ("file-box", {"file-style": "109 box"}),
                           ("commit-underline", {"commit-style": "111 underline"}),
                           ("hunk-raw-box", {"hunk-header-style": "raw box"}),
@@ -229,22 +234,24 @@ def run_task(task):
         cid = drv.mkconfig(args, env)
     except explore.Rejected as e:
         return {"label": label, "spec": spec, "rejected": str(e)}
-    nsec, kinds, bodies, coloured = spec
-    prob = ColorOnly(ocfg, nsec, kinds, bodies, coloured)
+    nsec, kinds, bodies, coloured = spec[:4]
+    src = spec[4] if len(spec) > 4 else "git"
+    prob = ColorOnly(ocfg, nsec, kinds, bodies, coloured, src)
     stats, viols = explore.bfs(prob, drv, cid, deadline=deadline)
     drv.drop(cid)
     for v in viols:
         v.args = args
         v.config_label = label
     d = stats.merge_dict()
-    d.update(label=label, spec=("sections=%d" % nsec, "coloured" if coloured else "plain"),
+    d.update(label=label, spec=("sections=%d" % nsec, "coloured" if coloured else "plain", src),
              violations=viols, args=args, caller=None)
     return d
 
 
 ASSUMPTIONS = [
     "producer: commit block + diffstat + file sections of 12 kinds x 5 hunk endings, in plain form "
-    "and in an emulation of git's default colouring (C08 uses real git)",
+    "and in an emulation of git's default colouring (C08 uses real git); plain `diff -u` files with and "
+    "without `diff` lines between them",
     "--relative-paths (an explicit request to rewrite diffstat paths) is outside the alphabet",
     "text law suspended exactly for: explicit --tabs, an explicit 'omit' style (that element "
     "only), the line-number gutter (gutter cells discounted); marker removal cannot be requested "
@@ -272,6 +279,11 @@ def main(tier):
         if t[0][2] is None:
             pass
     tasks = [((s[0], s[1], s[2] or producers.BODY_KINDS, s[3]), l, o) for s, l, o in tasks]
+    # plain `diff -u` sources: with `diff` lines, and several outputs concatenated without them
+    for label, ov, k in configs:
+        if k == 0 or tier == "thorough" and k == 1 or any(x in label for x in ("file-style", "line-buffer", "view")):
+            for src in ("diffu", "diffu_bare"):
+                tasks.append(((2 if tier == "quick" else 3, ["modified"], producers.BODY_KINDS, False, src), label, ov))
     cap = 45 if tier == "quick" else 900
     return runner.run_e1(PROP, tier, tasks, run_task, ASSUMPTIONS, cap,
                          {"config_deviation_bound": d, "configurations": len(configs)})
